@@ -166,6 +166,7 @@ class LoopRT:
             self._install(st)
             if self.spec.unfold:
                 self.spec.unfold(self.k, self.env)
+            c.loop_ctx.append((self.tag, self.k, {"n": 0}))
             if self.ghost is not None:
                 self.ghost_mark = len(self.ghost)
         return take_body
@@ -190,6 +191,8 @@ class LoopRT:
 
     def step(self, env):
         c = ctx()
+        if c.loop_ctx and c.loop_ctx[-1][0] == self.tag:
+            c.loop_ctx.pop()
         k1 = unwrap_int(self.k + 1)
         want = self.spec.state(k1, self.env)
         for name, w in want.items():
